@@ -238,6 +238,28 @@ def run(tier, seed):
     # same engine, two suspended queries
     se = same_engine_scenarios()
     chk.machine_family("one-engine-two-queries", se, features=features, opts_list=[{}, {"baton": True}])
+    # what one engine does to the interpreter is everybody's business: loads that fail (syntax error, exception
+    # at top level), evaluate_bounded, abandoned queries - run under the interpreter's default recursion limit,
+    # which must be what it was after every step
+    fl = []
+    for how in ("raise", "syntax"):
+        ta = [{"op": "loadfail", "e": 1, "script": "Ax", "how": how, "t": 1}, {"op": "load", "e": 1, "script": "Ax", "ow": True, "t": 1},
+              {"op": "solve", "e": 1, "r": 1, "goal": C("foo", V(0)), "qnv": 1, "k": 1, "via": {"exc": "KeyboardInterrupt"}, "t": 1},
+              {"op": "loadfail", "e": 1, "script": "Bx", "how": how, "t": 1}]
+        tb = [{"op": "load", "e": 2, "script": "By", "ow": True, "t": 2}, {"op": "solve", "e": 2, "r": 11, "goal": C("app", V(0), V(1), lst([A("p"), A("q")])), "qnv": 2, "k": 0, "t": 2},
+              {"op": "solve", "e": 2, "r": 12, "goal": C("foo", V(0)), "qnv": 1, "k": 0, "via": {"exc": "Exception"}, "t": 2}]
+        fl.append({"engines": 2, "scripts": sc, "steps": [], "threads": [ta, tb], "keys": KEYS})
+    chk.machine_family("failing-loads-and-bounded-queries-under-the-default-limit", fl, {"reclimit": 1000, "must_complete": True}, features=features)
+    # two different scripts that a cache keyed by name, length and CRC-32 cannot tell apart, one per engine
+    co = []
+    pairsc = {"R": {"colour/1": [clause(C("colour", A("red")))], "n/1": [clause(C("n", I(1)))]},
+              "B": {"colour/1": [clause(C("colour", A("blue"))), clause(C("colour", A("navy")))], "m/1": [clause(C("m", I(2)))]}}
+    for e1, e2 in ((1, 2), (1, 1)):
+        ta = [{"op": "load", "e": e1, "script": "R", "ow": True, "collide": ["R", "B"], "t": 1}, {"op": "solve", "e": e1, "r": 1, "goal": C("colour", V(0)), "qnv": 1, "k": 0, "t": 1}]
+        tb = [{"op": "load", "e": e2, "script": "B", "ow": True, "collide": ["R", "B"], "t": 2}, {"op": "solve", "e": e2, "r": 11, "goal": C("colour", V(0)), "qnv": 1, "k": 0, "t": 2},
+              {"op": "solve", "e": e2, "r": 12, "goal": C("m", V(0)), "qnv": 1, "k": 0, "t": 2}]
+        co.append({"engines": 2, "scripts": pairsc, "steps": [], "threads": [ta, tb], "keys": []})
+    chk.machine_family("scripts-with-equal-name-length-and-checksum", co, {"must_complete": True}, features=features)
     # above the small cases: one script text of more than 32 KiB loaded into both engines, one fact of
     # several hundred nodes matched by two suspended queries
     from .. import gen as _g
